@@ -18,7 +18,7 @@ FN = 'yui_homology::misc::format::make_rmod_str'
 
 
 def sk(t):
-    return re.sub(r'#\d+\.\d+', '', show(t, -1000))
+    return re.sub(r'#(?:i\d+:)?\d+\.\d+', '', show(t, -1000))
 
 
 def _holds(term, value, rank, empty):
